@@ -307,6 +307,46 @@ func vf7Universe(r *vfRand) (name string, keys [][]byte, secure bool, fixed bool
 		}
 	}
 	p := r.Intn(100)
+	if r.Chance(14) {
+		// U6: collapse shapes. Two keys sharing a long prefix plus a third diverging early (and
+		// variations), so that branches with exactly two children are the rule: deleting one key
+		// leaves a sole sibling that is a leaf or an extension, which delete must merge upwards.
+		name, fixed = "U6", true
+		l := r.Pick(2, 3, 4, 8, 20, 32)
+		nn := 2 * l
+		for g, ng := 0, 1+r.Intn(3); g < ng; g++ {
+			base := r.Bytes(l)
+			if g > 0 && r.Bool() { // second group shares the first nibble(s) with the first one
+				copy(base, keys[0][:1+r.Intn(l-1)])
+				vf7SetNibble(base, nn-1-r.Intn(nn/2), r.Intn(16))
+			}
+			add(base)
+			late := vf7Copy(base) // long common prefix with base
+			vf7SetNibble(late, nn-1-r.Intn(3), r.Intn(16))
+			add(late)
+			early := vf7Copy(base) // diverges early
+			pe := r.Intn(nn - 2)
+			if r.Chance(70) {
+				pe = r.Intn(4)
+			}
+			vf7SetNibble(early, pe, r.Intn(16))
+			add(early)
+			if r.Bool() {
+				e2 := vf7Copy(early)
+				vf7SetNibble(e2, nn-1-r.Intn(2), r.Intn(16))
+				add(e2)
+			}
+			if r.Bool() {
+				mid := vf7Copy(base)
+				vf7SetNibble(mid, pe+1+r.Intn(nn-pe-1), r.Intn(16))
+				add(mid)
+			}
+			if len(keys) >= size {
+				break
+			}
+		}
+		return
+	}
 	switch {
 	case p < 25: // U1: 32-byte keys sharing long prefixes
 		name, fixed = "U1", true
@@ -468,6 +508,10 @@ type vf7Case struct {
 	shadow  map[string][]byte // model key -> last value written (absent if deleted)
 
 	rootP      int // probability of a `root` op after a mutating op
+	lazy       bool // reads for the oracle go to a Copy / a separately reopened instance, so that the
+	// working trie keeps its unresolved hash nodes until a mutation resolves them (see reader)
+	bigVals    bool // most values >= 32 bytes (children referenced by hash, not embedded)
+	sinceOpen  int  // mutations applied to the working instance since it was (re)opened
 	log        []string
 	maxContent int
 	failed     bool
@@ -577,6 +621,24 @@ func (c *vf7Case) probeKey() []byte {
 }
 
 // ---- oracle pieces
+
+// reader returns the instance the oracle reads from. In lazy cases this is (mostly) a Copy of the
+// working trie: Get resolves hash nodes copy-on-write into the instance it is called on, so reading
+// through a copy leaves the working instance exactly as unloaded as the mutations left it. Reading
+// every key from the working trie after every op (what eager cases do) loads every node and hides
+// the lazy-resolution paths of insert/delete/commit/Prove (e.g. the resolve of the sole remaining
+// sibling when delete collapses a branch).
+func (c *vf7Case) reader() vf7H {
+	if !c.lazy || c.r.Chance(12) {
+		return c.h
+	}
+	var cp vf7H
+	if !c.guard("copy for reading", func() { cp = c.h.copy() }) {
+		return c.h
+	}
+	c.o.Stat("lazy.read-on-copy")
+	return cp
+}
 
 // checkContent: for every key ever used, Get must return the shadow value.
 func (c *vf7Case) checkContent(h vf7H, shadow map[string][]byte, sig, what string) bool {
@@ -800,7 +862,8 @@ func (c *vf7Case) modelGet(raw []byte) {
 	c.markUsed(raw)
 	var v []byte
 	var err error
-	if !c.guard("get "+vfHex(raw), func() { v, err = c.h.get(raw) }) {
+	rd := c.reader()
+	if !c.guard("get "+vfHex(raw), func() { v, err = rd.get(raw) }) {
 		return
 	}
 	out := vfHex(v)
@@ -833,7 +896,8 @@ func (c *vf7Case) afterMut(touched []byte) {
 	if len(c.shadow) > c.maxContent {
 		c.maxContent = len(c.shadow)
 	}
-	if !c.checkContent(c.h, c.shadow, "C07/get-not-last-written", "live trie") {
+	c.sinceOpen++
+	if !c.checkContent(c.reader(), c.shadow, "C07/get-not-last-written", "live trie") {
 		return
 	}
 	r := c.r
@@ -883,6 +947,9 @@ func (c *vf7Case) opPut() {
 	}
 	cur := c.shadow[string(c.mk(raw))]
 	v, class := vf7Value(r, cur)
+	if c.bigVals && len(v) > 0 && len(v) < 32 && class != "same" && r.Chance(80) {
+		v, class = r.Bytes(32+r.Intn(60)), "big-forced"
+	}
 	c.o.Stat("op.put")
 	c.o.Stat("val." + class)
 	switch {
@@ -993,14 +1060,32 @@ func (c *vf7Case) opCommit() {
 	}
 	c.o.Stat("reopen")
 	c.h = nh
-	if !c.checkContent(c.h, c.shadow, "C07/reopen-content-differs", "reopened trie") {
+	c.sinceOpen = 0
+	// read-back: in lazy cases on a SECOND instance opened from the same root, the working
+	// instance stays completely unloaded (only its root node is resolved)
+	vh := c.h
+	if c.lazy {
+		if !c.guard("reopen (verification instance)", func() { vh, err = vf7Open(c.secure, root, c.db) }) {
+			return
+		}
+		if err != nil {
+			c.viol("C07/reopen-content-differs", fmt.Sprintf("New(TrieID(%x)) failed after commit: %v", root, err))
+			return
+		}
+		c.o.Stat("lazy.reopen-separate-verifier")
+	}
+	iterFirst := r.Bool() // the iterator over a completely unloaded trie
+	if iterFirst && !c.checkIter(vh, c.shadow, "reopened trie (unloaded)") {
 		return
 	}
-	if !c.checkIter(c.h, c.shadow, "reopened trie") {
+	if !c.checkContent(vh, c.shadow, "C07/reopen-content-differs", "reopened trie") {
+		return
+	}
+	if !iterFirst && !c.checkIter(vh, c.shadow, "reopened trie") {
 		return
 	}
 	var h2 common.Hash
-	if !c.guard("reopened hash", func() { h2 = c.h.hash() }) {
+	if !c.guard("reopened hash", func() { h2 = vh.hash() }) {
 		return
 	}
 	if h2 != root {
@@ -1012,6 +1097,56 @@ func (c *vf7Case) opCommit() {
 	}
 	if len(c.olds) < 3 {
 		c.olds = append(c.olds, vf7Old{root, vf7CloneMap(c.shadow)})
+	}
+	// mutate the unloaded working instance right away: deletes that collapse branches whose
+	// remaining sibling is still a hash reference, overwrites / same-value writes / inserts through
+	// unresolved nodes; the root is compared (model, fresh trie, geth, StackTrie) after every step
+	if c.lazy && r.Chance(70) {
+		c.o.Stat("lazy.burst")
+		for n := 1 + r.Intn(3); n > 0 && !c.failed; n-- {
+			p := r.Intn(100)
+			switch {
+			case p < 65:
+				raw := c.presentRaw()
+				if raw == nil {
+					raw = c.anyKey()
+				}
+				c.o.Stat("op.del")
+				if _, ok := c.shadow[string(c.mk(raw))]; ok {
+					c.o.Stat("del.existing")
+					c.o.Stat("lazy.del-existing-unloaded")
+				} else {
+					c.o.Stat("del.absent")
+				}
+				c.doDel(raw)
+				c.afterMut(raw)
+			case p < 75: // same value through unresolved nodes: must stay clean
+				raw := c.presentRaw()
+				if raw == nil {
+					raw = c.anyKey()
+				}
+				cur := c.shadow[string(c.mk(raw))]
+				if len(cur) == 0 {
+					cur = r.Bytes(32 + r.Intn(40))
+				} else {
+					c.o.Stat("put.same-value")
+				}
+				c.o.Stat("op.put")
+				c.doPut(raw, vf7Copy(cur))
+				c.afterMut(raw)
+			default:
+				c.opPut()
+			}
+			if !c.failed {
+				c.opRoot(true)
+			}
+		}
+		if !c.failed && r.Chance(35) { // proof from a partially loaded trie (Prove's hashNode branch)
+			c.opProve()
+		}
+		if !c.failed && r.Chance(30) { // commit with most of the trie still unloaded, reopen again
+			c.opCommit()
+		}
 	}
 }
 
@@ -1742,12 +1877,18 @@ func (c *vf7Case) encOps() {
 func (c *vf7Case) deriveSha() {
 	r := c.r
 	n := r.Intn(21)
-	if r.Chance(4) {
-		n = 126 + r.Intn(12) // crosses the 0x7f / 0x80 index boundary (2-byte keys)
+	switch p := r.Intn(100); {
+	case p < 30: // the index encoding changes at 0x7f/0x80 (one byte -> 0x81 xx) and 0xff/0x100
+		n = r.Pick(126, 127, 128, 129, 130, 255, 256, 257)
+	case p < 42:
+		n = r.Intn(301)
 	}
 	items := make(vf7List, n)
 	for i := range items {
 		items[i] = r.Bytes(1 + r.Intn(100)) // StackTrie refuses empty values (see header)
+		if n > 40 {
+			items[i] = r.Bytes(1 + r.Intn(40))
+		}
 	}
 	var hs, ht, hh common.Hash
 	if !c.guard("DeriveSha(StackTrie)", func() { hs = types.DeriveSha(items, NewStackTrie(nil)) }) {
@@ -1756,9 +1897,10 @@ func (c *vf7Case) deriveSha() {
 	if !c.guard("DeriveSha(Trie)", func() { ht = types.DeriveSha(items, NewEmpty(NewDatabase(memorydb.New()))) }) {
 		return
 	}
+	// independent reference 1: a normal trie filled with rlp(index) -> item in ARBITRARY order
 	if !c.guard("hand-built index trie", func() {
 		ft := NewEmpty(NewDatabase(memorydb.New()))
-		for i := range items {
+		for _, i := range vf7Shuffle(r, len(items)) {
 			k, _ := gethrlp.EncodeToBytes(uint(i))
 			ft.Update(k, items[i])
 		}
@@ -1766,13 +1908,49 @@ func (c *vf7Case) deriveSha() {
 	}) {
 		return
 	}
+	// independent reference 2: go-ethereum's DeriveSha (its own trie, its own loop)
 	hg := common.BytesToHash(gethtypes.DeriveSha(items).Bytes())
 	c.o.Stat("derivesha.lists")
 	if n >= 126 {
 		c.o.Stat("derivesha.lists-over-127")
 	}
+	if n == 127 || n == 128 || n == 129 || n == 255 || n == 256 || n == 257 {
+		c.o.Stat(fmt.Sprintf("derivesha.len-%d", n))
+	}
 	if hs != ht || hs != hh || hs != hg {
-		c.viol("C07/derivesha-differs", fmt.Sprintf("items=[%s]: stacktrie=%x trie=%x hand-built=%x geth=%x", vf7HexList(items), hs, ht, hh, hg))
+		c.viol("C07/derivesha-differs", fmt.Sprintf("n=%d items=[%s]: stacktrie=%x trie=%x hand-built=%x geth=%x", n, vf7HexList(items), hs, ht, hh, hg))
+		return
+	}
+	// every item is bound by the root: mutating ANY single item changes it (all indices for the
+	// boundary lengths and now and then, else the boundary indices plus a few random ones)
+	var idx []int
+	if n <= 24 || (n >= 126 && n <= 130) || r.Chance(10) {
+		for i := 0; i < n; i++ {
+			idx = append(idx, i)
+		}
+	} else {
+		for _, i := range []int{0, 1, 126, 127, 128, 129, 254, 255, 256, 257, n - 1, r.Intn(n), r.Intn(n), r.Intn(n)} {
+			if i >= 0 && i < n {
+				idx = append(idx, i)
+			}
+		}
+	}
+	for _, i := range idx {
+		old := items[i]
+		m := vf7Copy(old)
+		m[r.Intn(len(m))] ^= byte(1 + r.Intn(255))
+		items[i] = m
+		var hm common.Hash
+		ok := c.guard("DeriveSha(mutated item)", func() { hm = types.DeriveSha(items, NewStackTrie(nil)) })
+		items[i] = old
+		if !ok {
+			return
+		}
+		c.o.Stat("derivesha.item-mutations")
+		if hm == hs {
+			c.viol("C07/derivesha-item-not-bound", fmt.Sprintf("n=%d: changing item %d (%s -> %s) leaves DeriveSha at %x", n, i, vfHex(old), vfHex(m), hs))
+			return
+		}
 	}
 }
 
@@ -1783,7 +1961,7 @@ func (c *vf7Case) finish() {
 	if c.failed {
 		return
 	}
-	if !c.checkContent(c.h, c.shadow, "C07/get-not-last-written", "final trie") {
+	if !c.checkContent(c.reader(), c.shadow, "C07/get-not-last-written", "final trie") {
 		return
 	}
 	for _, raw := range c.usedL {
@@ -1861,7 +2039,7 @@ func (c *vf7Case) finish() {
 		}
 	}
 	c.encOps()
-	if !c.failed && r.Chance(50) {
+	if !c.failed && r.Chance(60) {
 		c.deriveSha()
 	}
 }
@@ -1872,6 +2050,31 @@ func (c *vf7Case) run() {
 	nops := 5 + r.Intn(30)
 	if r.Chance(40) {
 		nops = 5 + r.Intn(56)
+	}
+	if c.uni == "U6" || (c.lazy && r.Chance(35)) {
+		// prologue: build (most of) the universe, commit, reopen; the burst of opCommit then
+		// deletes from / writes into the completely unloaded trie
+		c.o.Stat("lazy.prologue")
+		for _, i := range vf7Shuffle(r, len(c.keys)) {
+			if c.failed || r.Chance(15) {
+				continue
+			}
+			v, class := vf7Value(r, nil)
+			if len(v) == 0 || (c.bigVals && len(v) < 32 && r.Chance(80)) {
+				v, class = r.Bytes(32+r.Intn(60)), "big-forced"
+			}
+			c.o.Stat("op.put")
+			c.o.Stat("val." + class)
+			c.o.Stat("put.new")
+			c.doPut(c.keys[i], v)
+			c.afterMut(c.keys[i])
+		}
+		if !c.failed {
+			c.opCommit()
+		}
+		if nops > 25 {
+			nops = 25
+		}
 	}
 	for j := 0; j < nops && !c.failed; j++ {
 		p := r.Intn(100)
@@ -1922,6 +2125,13 @@ func TestVerifC07(t *testing.T) {
 		c.rootP = 75
 		if r.Chance(20) {
 			c.rootP = 25 // long stretches without hashing
+		}
+		c.lazy = c.uni == "U6" || r.Chance(65)
+		c.bigVals = c.uni == "U6" && r.Chance(85) || r.Chance(25)
+		if c.lazy {
+			o.Stat("case.lazy")
+		} else {
+			o.Stat("case.eager")
 		}
 		o.Stat("case.uni." + c.uni)
 		c.db = NewDatabase(memorydb.New())
